@@ -114,11 +114,11 @@ func init() {
 		"write-EAGAIN", "write-short", "writev-multi-segment", "writev>1024-segments")
 	props["C03"] = simProp("whole-engine runs with 1..3 application tasks issuing AsyncWrite/AsyncWritev/Wake/Close/CloseWithCallback/Execute against idle and busy loops with every atomic of the poller/queue a scheduling point in part of the runs; at quiescence with the engine running every accepted request has run exactly once on the owning loop's task, per-user order of asynchronous writes (with bursts of 6..40 tiny requests on one connection in part of the runs, and half of the workers on the +small build flavour where the urgent queue degrades at 8 pending requests), one OnTraffic per Wake; non-trivial = requests executed and more than 5 contended decisions;"+sig,
 		"async-executed", "wake-traffic", "epoll_wait-blocked")
-	props["C04"] = simProp("whole-engine runs mixing every close cause (peer FIN/RST, Close action, Close()/CloseWithCallback from users, EventLoop.Close, write failure, shutdown) and late requests, with canaries re-opening freed descriptor numbers; per-connection state machine (OnOpen once before OnTraffic, OnClose once iff opened, nothing after), OnClose error nil iff a local cause had been requested, CountConnections within the window of opened-closed; non-trivial = at least one connection closed;"+sig,
+	props["C04"] = simProp("whole-engine runs mixing every close cause (peer FIN/RST, Close action, Close()/CloseWithCallback from users, EventLoop.Close, write failure, shutdown) and late requests, with canaries re-opening freed descriptor numbers; per-connection state machine (OnOpen once before OnTraffic, OnClose once iff opened, nothing after), OnClose error nil iff a local cause had been requested (for connected UDP sockets of a client too: remote port gone, ICMP error pending, EPOLLERR), CountConnections within the window of opened-closed; handlers also use the connection inside OnClose (parting write, Close/EventLoop.Close again); non-trivial = at least one connection closed;"+sig,
 		"fd-number-reused", "canary-grabbed", "close-sent-RST")
 	props["C05"] = simProp("same runs as C03/C04 with the executing task recorded for every callback, runnable and kernel call: one task per connection for life, no overlapping callbacks on one loop (nested OnClose from the handler's own call is legal), every read/write/epoll_ctl/close on a connection's descriptor issued by its loop's task, no panic from any documented concurrency-safe call made at arbitrary moments; memory-level data races are NOT decided (see level_note);"+sig,
 		"async-executed")
-	props["C06"] = simProp("whole-engine runs with the shutdown source (Engine.Stop, gnet.Stop, Shutdown action from OnBoot/OnOpen/OnTraffic/OnClose/OnTick) and moment (any scheduler step: mid-accept, mid-read, queued async tasks, concurrent second Stop) drawn from the seed; Run returns nil within the drain bound (hang = quiescent without return), every opened connection got OnClose before, OnShutdown exactly once, no callback afterwards during a post-mortem phase in which timers keep firing; non-trivial = connections were open;"+sig,
+	props["C06"] = simProp("whole-engine runs with the shutdown source (Engine.Stop, gnet.Stop, Shutdown action from OnBoot/OnOpen/OnTraffic/OnClose/OnTick) and moment (any scheduler step: mid-accept, mid-read, queued async tasks, concurrent second Stop) drawn from the seed; Run returns nil within the drain bound (hang = quiescent without return), every opened connection got OnClose before, OnShutdown exactly once, no callback afterwards during a post-mortem phase in which timers keep firing; a task that repeats one EAGAIN-answered call 500 times without returning to the poller is a busy retry: the shutdown is requested and must still complete (C06/spin otherwise); non-trivial = connections were open;"+sig,
 		"accepted")
 	props["C18"] = simProp("per seeded scenario (3-4 connections with echo-like checked traffic in LT or ET, reactor or reuseport, tcp or unix, plus a late probe connection): one fault-free run recording the syscall trace by (site, descriptor class, call index), then one run per single fault (read/write/writev/epoll_ctl add,mod,del/close on stream descriptors, epoll_wait, accept4; call index 1..6 (12 thorough); errno from the realistic set of the site; stateful resets mark the socket too) on the same seed, i.e. the same schedule prefix; every fourth seed is a random plan with 1-2 random faults instead; oracle: no panic, C01/C02/C04/C05/C06/C07 monitors hold (victims exempt from completeness only), victim closed with an error and its descriptor released, probe served, retryable conditions (EAGAIN LT-only, EINTR, ECONNABORTED) leave everything as fault-free; evaluations counts every executed run; non-trivial/distinct = scenario enumerations (hash of all sub-run logs) and random-fault runs in which a fault fired with at least two connections open",
 		"faults-enumerated", "scenarios-enumerated-completely")
@@ -136,11 +136,11 @@ func init() {
 		props[id].variantsT = []string{"default", "default+small", "poll_opt", "poll_opt+small", "gc_opt", "poll_opt+gc_opt"}
 	}
 	props["C14"].extra = []*propCfg{{engine: "vreg", instrumented: true, variantsQ: []string{"default", "gc_opt"}, variantsT: []string{"default", "gc_opt"}}}
-	props["C15"] = simProp("whole-engine runs in reactor mode with 1..8 loops (16/64/256 in a few thorough runs), 3..40 connections opening and closing so that the vector of per-loop counts keeps changing, peers re-using source addresses (IPv4, IPv6 with zones, unix = empty name); round-robin: the i-th and (i+N)-th accepted connections share a loop and N consecutive ones are pairwise distinct; least-connections (connects serialised, atomics not scheduling points so that the balancer's scan is atomic with accept4): the chosen loop's live count at accept time is minimal; source-address hash: equal RemoteAddr strings are served by one loop; never more loops than configured; the loop is identified by the task that runs the callbacks (C05 ties descriptor I/O to it); non-trivial = an accept sequence or a least-connections decision was checked with at least two connections;"+sig,
+	props["C15"] = simProp("whole-engine runs in reactor mode with 1..8 loops (16/64/256 in a few thorough runs), 3..40 connections opening and closing so that the vector of per-loop counts keeps changing, peers re-using source addresses (IPv4, IPv6 with zones, unix = empty name); round-robin: the i-th and (i+N)-th accepted connections share a loop and N consecutive ones are pairwise distinct; least-connections (connects serialised, atomics not scheduling points so that the balancer's scan is atomic with accept4): the chosen loop's live count at accept time is minimal; source-address hash: equal RemoteAddr strings are served by one loop, across accepted connections and connections handed over through Register/Enroll whose target address equals an accepted peer's; never more loops than configured; the loop is identified by the task that runs the callbacks (C05 ties descriptor I/O to it); non-trivial = an accept sequence or a least-connections decision was checked with at least two connections;"+sig,
 		"lb-sequences-checked", "lc-checks")
-	props["C17"] = simProp("whole-engine runs in which the simulated kernel fabricates peer addresses for accept4 (IPv4, IPv6 loopback, link-local IPv6 with zone ids of existing and non-existing interfaces, unix) and listeners bound to zoned addresses; at every callback of every connection RemoteAddr must equal the peer address as the kernel knows it (IP, port, zone name) and LocalAddr the listener's bound address, for the whole life of the connection while other connections open and close and recycle zone strings through the pool; non-trivial = at least two address checks;"+sig,
+	props["C17"] = simProp("whole-engine runs in which the simulated kernel fabricates peer addresses for accept4 (IPv4, IPv6 loopback, link-local IPv6 with zone ids of existing and non-existing interfaces, unix) and listeners bound to zoned addresses; at every callback of every connection RemoteAddr must equal the peer address as the kernel knows it (IP, port, zone name) and LocalAddr the listener's bound address, for the whole life of the connection while other connections open and close and recycle zone strings through the pool; in the UDP runs SendTo with addresses of invalid IP length or unsupported type must be refused; non-trivial = at least two address checks;"+sig,
 		"address-checks")
-	props["C08"] = simProp("whole-engine runs on a udp listener (reuseport group of 1..4 loops, IPv4 or IPv6 incl. zoned link-local sources): 1..6 simulated senders inject 1..14 datagrams of 0..65507 bytes (bias 0/1, read-buffer size +-1, maximum) in seeded interleavings with the loops; the handler consumes none/part/all with Read/Next/Discard and replies with Write, SendTo(other sender) and AsyncWrite; the simulated kernel knows which datagram each recvfrom returned, so the OnTraffic that follows must show exactly that payload (InboundBuffered, Peek(-1), truncated to the read buffer), that source as RemoteAddr, once per datagram, with nothing carried over; every sendto must be exactly one expected reply with exact bytes to the right address; non-trivial = at least two datagrams handled;"+sig,
+	props["C08"] = simProp("whole-engine runs on a udp listener (reuseport group of 1..4 loops, IPv4 or IPv6 incl. zoned link-local sources): 1..6 simulated senders inject 1..14 datagrams of 0..65507 bytes (bias 0/1, read-buffer size +-1, maximum; one plan in twelve is a flood of 70..220 small datagrams queued at once) in seeded interleavings with the loops; the handler consumes none/part/all with Read/Next/Discard and replies with Write, SendTo(other sender), SendTo(an address no conversion exists for: must be refused) and AsyncWrite; the simulated kernel knows which datagram each recvfrom returned, so the OnTraffic that follows must show exactly that payload (InboundBuffered, Peek(-1), truncated to the read buffer), that source as RemoteAddr, once per datagram, with nothing carried over; every sendto must be exactly one expected reply with exact bytes to the right address; non-trivial = at least two datagrams handled;"+sig,
 		"udp-datagrams-handled", "udp-partial-consumption", "udp-replies-checked", "udp-truncated")
 	props["C08"].variantsQ = []string{"default", "poll_opt"}
 	props["C07"] = simProp("same runs as C04/C06; oracle = the simulated kernel's ledger: any framework call on a closed or foreign descriptor number is a violation at that step (canaries grab freed numbers at once), every framework-created descriptor closed exactly once by the time Run returns, unix-socket file removed; in one sixth of the runs one descriptor-creating or -configuring call fails (socket, bind, listen, epoll_create1, eventfd, epoll_ctl ADD of an eventfd or listener, setsockopt, fcntl F_DUPFD; EMFILE/ENOMEM/EADDRINUSE/ENOPROTOOPT at a seeded call index; keep-alive option in a quarter of the runs) while the engine or client starts or while Dup/Register/Enroll duplicate a descriptor: Run/Client.Start must return with everything created so far closed and nothing still running may touch a closed number; leaks are classified by kind and origin (accepted / duplicated, never opened / left behind by a call that answered); non-trivial = a descriptor number was re-used or a connection closed;"+sig,
